@@ -4,8 +4,8 @@ import subprocess, re, sys, tempfile, os
 TMP = tempfile.mkdtemp()
 HDR = '''From Coq Require Import String.
 From PS Require Import Base GFDefs PackDefs StoreDefs MiscDefs StrDefs LangDefs ApiDefs SpecDefs SpecApi.
-From PS Require Import GFProofs MiscProofs CoinProofs PackProofs PackTheorems StoreProofs SeedProofs ApiLemmas.
-From PS Require Import StrProofs CTieBase CTieLang CTiePhrase CTiePhraseEv CTieSplit CTieApi CTieDecode CTieEncode CTieLocals CTieInject CTieCmp CTieSearch.
+From PS Require Import GFProofs MiscProofs CoinProofs PackProofs PackTheorems StoreProofs SeedProofs ApiLemmas RefineProofs.
+From PS Require Import StrProofs CTieBase CTieLang CTiePhrase CTiePhraseEv CTieSplit CTieApi CTieDecode CTieEncode CTieLocals CTieInject CTieCmp CTieSearch CodeTheorems.
 From PS.Gen Require Import Consts PrivConsts Langs.
 From PS.Gen Require CFuns CApi.
 Local Open Scope N_scope.
@@ -23,7 +23,7 @@ def typ(name):
 IMPORTS = '''
 (* ---- the tie to the code: src/polyseed.c as TRANSLATED on this run (Gen/CApi.v) ---- *)
 From Coq Require Import String.
-From PS Require Import Base GFDefs PackDefs StoreDefs MiscDefs StrDefs LangDefs ApiDefs GFProofs PackProofs StoreProofs CTieBase CTieLang CTiePhrase CTiePhraseEv CTieSplit CTieApi CTieDecode CTieEncode CTieLocals CTieInject CTieCmp CTieSearch.
+From PS Require Import Base GFDefs PackDefs StoreDefs MiscDefs StrDefs LangDefs ApiDefs SpecDefs SpecApi GFProofs PackProofs StoreProofs RefineProofs CTieBase CTieLang CTiePhrase CTiePhraseEv CTieSplit CTieApi CTieDecode CTieEncode CTieLocals CTieInject CTieCmp CTieSearch CodeTheorems.
 From PS.Gen Require Import Consts PrivConsts Langs.
 From PS.Gen Require CFuns.
 From PS.Gen Require CApi.
@@ -36,13 +36,15 @@ PLAN = {
          ('api_encode','tie_encode','polyseed_encode as translated: every write stays inside str_tmp exactly when the joined phrase is shorter than POLYSEED_STR_SIZE (the case C17_bounds shows is the only one), and the length returned is the length written')],
  'C04': [('keygen','tie_keygen','polyseed_keygen as translated: exactly one call of the injected KDF, with the 32-byte secret buffer, the salt "POLYSEED key" 00 FF FF FF | coin | birthday | features | 0000 (little-endian 32-bit fields), 10000 iterations and the caller\'s key size; the key is what that call wrote')],
  'C06': [('api_load','tie_load','polyseed_load as translated against the mirror step: status, block, *seed_out, events - for every 32-byte buffer and either allocation outcome'),
-         ('api_store','tie_store','polyseed_store as translated = the storage layout, for every canonical struct')],
+         ('api_store','tie_store','polyseed_store as translated = the storage layout, for every canonical struct'),
+         ('roundtrip','code_store_load','ON THE CODE: what the translated polyseed_store writes for a live seed of any reachable state, the translated polyseed_load turns back into the same struct (status OK, one allocation, one wipe of poly) - ties composed with C06_api_roundtrip')],
  'C09': [('split','tie_str_split','str_split as translated (offsets into the buffer, separators overwritten in place): the count returned and the tokens designated are the mirror\'s, for every NUL-free content'),
          ('api_decode','tie_decode','polyseed_decode as translated against the mirror step'),
          ('api_decode_explicit','tie_decode_explicit','polyseed_decode_explicit as translated against the mirror step')],
  'C10': [('api_get_feature','tie_get_feature','polyseed_get_feature as translated'), ('api_is_encrypted','tie_is_encrypted_api','polyseed_is_encrypted as translated')],
  'C11': [('api_get_birthday','tie_get_birthday','polyseed_get_birthday as translated'), ('api_create','tie_create','polyseed_create as translated against the mirror step (birthday = birthday_encode of the injected clock)')],
- 'C12': [('api_crypt','tie_crypt','polyseed_crypt as translated against the mirror step: one KDF call on the normalised password, the xor of 19 bytes, the cleared top bits, the toggled flag, the new check value, three wipes')],
+ 'C12': [('involution','code_crypt_twice','ON THE CODE: the translated polyseed_crypt applied twice with the same password returns the struct byte for byte - tie composed with C12_involution'),
+         ('api_crypt','tie_crypt','polyseed_crypt as translated against the mirror step: one KDF call on the normalised password, the xor of 19 bytes, the cleared top bits, the toggled flag, the new check value, three wipes')],
  'C13': [('api_create','tie_create','polyseed_create as translated = the mirror step the refinement is about'),
          ('api_load','tie_load','polyseed_load as translated = the mirror step'),
          ('api_decode','tie_decode','polyseed_decode as translated = the mirror step (up to the wipe of `idx`, which is inside polyseed_phrase_decode)'),
